@@ -16,6 +16,7 @@ import Proofs.PathRoot
 import Proofs.PathRe
 import Proofs.PathSort
 import Proofs.PathAgree
+import Proofs.PathAccess
 namespace Pydap.C16
 open Pydap Pydap.Path
 
@@ -173,6 +174,53 @@ theorem C16_route_complete (exts : List Seg) (fs : FS) (root : Segs) (pathInfo :
         fs p = .missing) :=
   serveAt_complete exts fs root (target root pathInfo)
 
+/-- **Nothing is opened, listed or handed to a handler but what the answer is made of** ("every other path discloses
+    nothing"): for every handler table, file system, root and request — no hypothesis — a file is opened only when
+    it is the file the answer returns, a directory is listed only when the answer is the listing of that very directory,
+    a path is handed to a handler only when the answer is that handler's; and when the request is refused (forbidden,
+    not found, unsupported) the server has opened and listed nothing: all it did is `stat` (existence / kind tests —
+    which by `C16_confined` lie under the data directory), and for forbidden not even that (`C16_outside_forbidden`). -/
+theorem C16_opens_only_what_it_answers (exts : List Seg) (fs : FS) (root : Segs) (pathInfo : List Char) :
+    let r := serve exts fs root pathInfo
+    (∀ a ∈ r.1, a.op = .serve → r.2 = .file a.path) ∧
+    (∀ a ∈ r.1, a.op = .listdir → ∃ cat files dirs, r.2 = .listing cat a.path files dirs) ∧
+    (∀ a ∈ r.1, a.op = .handler → r.2 = .dap a.path) ∧
+    ((r.2 = .forbidden ∨ r.2 = .notFound ∨ ∃ b, r.2 = .unsupported b) → ∀ a ∈ r.1, a.op = .stat) := by
+  intro r
+  have hj : ∀ a ∈ r.1, Justified r.2 a := serveAt_justified exts fs root (target root pathInfo)
+  refine ⟨?_, ?_, ?_, ?_⟩
+  · intro a ha hop
+    rcases hj a ha with h | ⟨_, h⟩ | ⟨h, _⟩ | ⟨h, _⟩
+    · rw [hop] at h; cases h
+    · exact h
+    · rw [hop] at h; cases h
+    · rw [hop] at h; cases h
+  · intro a ha hop
+    rcases hj a ha with h | ⟨h, _⟩ | ⟨_, h⟩ | ⟨h, _⟩
+    · rw [hop] at h; cases h
+    · rw [hop] at h; cases h
+    · exact h
+    · rw [hop] at h; cases h
+  · intro a ha hop
+    rcases hj a ha with h | ⟨h, _⟩ | ⟨h, _⟩ | ⟨_, h⟩
+    · rw [hop] at h; cases h
+    · rw [hop] at h; cases h
+    · rw [hop] at h; cases h
+    · exact h
+  · intro ho a ha
+    rcases hj a ha with h | ⟨_, h⟩ | ⟨_, _, _, _, h⟩ | ⟨_, h⟩
+    · exact h
+    all_goals (rcases ho with ho | ho | ⟨b, ho⟩ <;> rw [ho] at h <;> cases h)
+
+/-- **the hypothesis of `C16_confined` is needed**: a configured data directory that does not exist and is named
+    `catalog.xml` makes the server test its *parent* (`os.path.isdir(os.path.dirname(path))`) — and, when that is a
+    directory, list it.  The property quantifies over layouts whose data directory exists. -/
+theorem C16_confined_needs_existing_root :
+    ∃ (fs : FS) (root : Segs), Normal root ∧ fs root = .missing ∧
+      ∃ a ∈ (serve [] fs root "/".toList).1, ¬ root <+: a.path := by
+  refine ⟨fun _ => .missing, [catalogName], ?_, rfl, ⟨.stat, []⟩, by decide +kernel, by decide +kernel⟩
+  intro s hs; simp at hs; subst hs; exact ⟨by decide, by decide, by decide, by decide⟩
+
 /-! ### non-vacuity -/
 
 private def exFs : FS := fun p =>
@@ -187,6 +235,11 @@ private def exExts : List Seg := ["csv".toList]
 example : (serve exExts exFs ["r".toList] "/../r2/s".toList) = ([], .forbidden) := by decide
 example : (serve exExts exFs ["r".toList] "/d/../a.csv".toList).2 = .file ["r".toList, "a.csv".toList] := by decide
 example : (serve exExts exFs ["r".toList] "/a.csv.dds".toList).2 = .dap ["r".toList, "a.csv".toList] := by decide
+-- `C16_opens_only_what_it_answers`: a refused request with accesses (two `stat`s, nothing opened), and an answered one
+example : (serve exExts exFs ["r".toList] "/t.txt.dds".toList).1 =
+    [⟨.stat, ["r".toList, "t.txt.dds".toList]⟩, ⟨.stat, ["r".toList, "t.txt".toList]⟩] := by decide
+example : ∃ a ∈ (serve exExts exFs ["r".toList] "/t.txt".toList).1, a.op = .serve := by decide
+example : ∃ a ∈ (serve exExts exFs ["r".toList] "/d/catalog.xml".toList).1, a.op = .listdir := by decide
 example : (serve exExts exFs ["r".toList] "/t.txt.dds".toList).2 = .unsupported ["r".toList, "t.txt".toList] := by
   decide
 example : (serve exExts exFs ["r".toList] "/x/catalog.xml".toList).2 = .notFound := by decide
